@@ -666,10 +666,11 @@ _reg("k:mutation", f_mutation)
 _reg("k:subscription", f_subscription)
 for _i, _w in enumerate(WRAPPERS):
     _reg("w:" + _w, _f_wrap(_i + 1, _w))
-_reg("w:deep", f_wrap_deep)
+# large, self-contained features: enumerated alone and with a few carriers only (see feature_sets)
+_reg("w:deep", f_wrap_deep, extra=["k:enum", "k:input", "desc:one"])
 for _g in DEFAULT_GROUPS:
-    _reg("d:" + _g, _f_default(_g))
-_reg("d:nested-defaults", f_nested_defaults)
+    _reg("d:" + _g, _f_default(_g), extra=(["k:input", "dir:def", "desc:one"] if _g == "float-precise" else None))
+_reg("d:nested-defaults", f_nested_defaults, extra=["k:enum", "k:input", "dir:applied"])
 _reg("dep:field", f_dep_field)
 _reg("dep:enum", f_dep_enum)
 _reg("dep:empty", f_dep_empty)
